@@ -954,6 +954,10 @@ func (c *Conn) dispatch(fr *FrameHeader) bool {
 		// An informational (1xx) response comes before the real one.
 		if sc := r.Response.StatusCode(); err != nil || trailers || sc < 100 || sc > 199 {
 			r.gotHeaders = true
+		} else {
+			// An interim response is a message of its own (RFC 7231 6.2): what
+			// it carried is not part of the response the caller is waiting for.
+			r.Response.Header.Reset()
 		}
 	} else {
 		err = c.readStream(fr, r.Response)
